@@ -614,6 +614,25 @@ def _pinned_displaced():
     return out
 
 
+def _pinned_robust():
+    """Observation kept on record: scipy.optimize.nnls hits its iteration limit inside the split2 fit for this ordinary
+    density (core model of O + two broad Gaussians); the library does not catch the RuntimeError.  Counted as
+    'nnls-no-convergence' (inconclusive) on every run; if the library starts handling it the case is simply compared."""
+    return [
+        {
+            "grid": {"oned": "GL", "nrad": 103, "rmin": 0.001, "R": 1.1366565141130205, "degree": 11,
+                     "center": [0.2935721539531715, -0.45319237938616996, -0.21033159567334825]},
+            "mode": "core+smooth",
+            "z": [8],
+            "split2": True,
+            "gauss": [{"c": 0.2, "a": 0.5732656753226201}, {"c": 0.2, "a": 0.3}],
+            "remove_large_pts": 1000000.0,
+            "custom_basis": False,
+            "pseed": 502,
+        }
+    ]
+
+
 def selftest():
     # the closed forms: -laplace(erf(sqrt(a) r)/r) = 4 pi (a/pi)^{3/2} exp(-a r^2), by 30-digit differentiation
     import mpmath
@@ -642,6 +661,6 @@ def subchecks(tier, seed):
                  shards=16, shrink=False, budget_s=200 if q else 1500),
         SubCheck("bvp_displaced", body_displaced, strategy=_displaced_strategy(), examples=96 if q else 960, cases=[c for i, c in enumerate(_pinned_displaced()) if (not q) or i in (0, 1, 4)],
                  shards=16, shrink=False, budget_s=200 if q else 1500),
-        SubCheck("robust", body_robust, strategy=_robust_strategy(), examples=160 if q else 1600, shards=16, shrink=False, budget_s=200 if q else 1500),
+        SubCheck("robust", body_robust, strategy=_robust_strategy(), examples=160 if q else 1600, cases=_pinned_robust(), shards=16, shrink=False, budget_s=200 if q else 1500),
         SubCheck("laplacian", body_laplacian, strategy=_laplacian_strategy(), examples=320 if q else 3200, shards=16, budget_s=100 if q else 600),
     ]
